@@ -281,6 +281,33 @@ class Model:
         decos = [ast.dump(d, annotate_fields=False, include_attributes=False) for d in node.decorator_list]
         return hashlib.sha256("\n".join([args] + decos + dumped).encode()).hexdigest()[:20]
 
+    @staticmethod
+    def arity(f: "Func") -> int:
+        a = f.node.args
+        return len(a.posonlyargs) + len(a.args) + len(a.kwonlyargs)
+
+    @staticmethod
+    def param_names(f: "Func") -> list[str]:
+        a = f.node.args
+        return [x.arg for x in a.posonlyargs + a.args + a.kwonlyargs]
+
+    @staticmethod
+    def sketch(f: "Func") -> list[str]:
+        """what the body talks about, names of locals and of the routine itself left out: attribute names, called names, exception classes"""
+        own = f.node.name
+        out = set()
+        for st in f.node.body:
+            for n in ast.walk(st):
+                if isinstance(n, ast.Attribute) and n.attr != own:
+                    out.add("." + n.attr)
+                elif isinstance(n, ast.Call) and isinstance(n.func, ast.Name) and n.func.id != own:
+                    out.add(n.func.id)
+                elif isinstance(n, ast.Raise) and n.exc is not None:
+                    e = n.exc.func if isinstance(n.exc, ast.Call) else n.exc
+                    if isinstance(e, ast.Name):
+                        out.add(e.id)
+        return sorted(out)
+
     def _alias_renamed_private_helpers(self) -> None:
         """Rules and reference definitions name some PRIVATE helpers of the repository.  Renaming such a helper (same parameters, same body) is
         house-keeping: when a name recorded in yv/refs/fingerprints.json is gone and exactly one new private routine of the same module (or class)
@@ -303,16 +330,10 @@ class Model:
             owner = q.rpartition(".")[0]
             if f.node.name.startswith("_") and not f.node.name.startswith("__"):
                 by_print.setdefault((owner, self.fingerprint(f)), []).append(q)
-        for old, fp in sorted(base.items()):
-            if old in current:
-                continue
-            owner = old.rpartition(".")[0]
-            cands = by_print.get((owner, fp), [])
-            if len(cands) != 1:
-                continue
-            new = current[cands[0]]
+        def _keep(old: str, newq: str) -> None:
+            new = current[newq]
             self.functions[old] = new
-            self.renamed[old] = cands[0]
+            self.renamed[old] = newq
             # the analysis keeps calling it by the recorded name (primitives, call terms and reports all use qname); `renamed` keeps the new one
             new.qname = old
             leaf = old.rpartition(".")[2]
@@ -320,6 +341,41 @@ class Model:
                 new.cls.methods.setdefault(leaf, new)
             else:
                 new.module.functions.setdefault(leaf, new)
+
+        base = {q: (v if isinstance(v, dict) else {"fp": v, "arity": None, "sketch": None}) for q, v in base.items()}
+        taken: set[str] = set()
+        for old, rec in sorted(base.items()):
+            if old in current:
+                continue
+            owner = old.rpartition(".")[0]
+            cands = by_print.get((owner, rec["fp"]), [])
+            if len(cands) != 1:
+                continue
+            _keep(old, cands[0])
+            taken.add(cands[0])
+        # second pass -- renamed AND lightly edited (a docstring, a guard clause, `(x,) = xs` for `xs.pop()`): the recorded name has vanished and
+        # exactly one new private routine of the same module / class has the same parameters (names, order) and talks about the same things (attribute
+        # names, called names, exception classes: Jaccard >= 0.6).  The alias only decides WHICH routine the rules are applied to -- its body is
+        # analysed like any other, so a changed meaning is still reported under the recorded name.
+        fresh: dict[str, list[str]] = {}
+        for (owner, _fp), qs in by_print.items():
+            fresh.setdefault(owner, []).extend(q for q in qs if q not in taken)
+        for old, rec in sorted(base.items()):
+            if old in current or old in self.renamed or rec.get("arity") is None:
+                continue
+            owner = old.rpartition(".")[0]
+            want = set(rec.get("sketch") or [])
+            cands = []
+            for q in fresh.get(owner, []):
+                if q in taken or self.arity(current[q]) != rec["arity"] or self.param_names(current[q]) != rec.get("params"):
+                    continue  # same parameters in the same order: every rule that reads a call of the helper reads its arguments by position
+                have = set(self.sketch(current[q]))
+                union = want | have
+                if union and len(want & have) / len(union) >= 0.6:
+                    cands.append(q)
+            if len(cands) == 1:
+                _keep(old, cands[0])
+                taken.add(cands[0])
 
     def add_reference_module(self, name: str, source: str) -> "Module":
         """Index a reference module written by a rule (published definitions as Python source) next to the repo's
